@@ -132,24 +132,26 @@ CLAIMED = {
 
 # additions made after the first build (kept apart so that the long entries above stay untouched)
 EXTRA_NOTES = {
-    "C02": " Every configuration is entered from another, fully evaluated configuration of the same instance and the writers run before any read in 2 of 3 cases (stale internal flags); the same fixpoint is checked through kconfgen's command line (spec/KStore.tla GenRun, spec/MC_Gen.tla: --defaults files merged in order, sdkconfig merged on top, both policies, second run rewrites nothing).",
-    "C01": " Families since added: F-multidef, F-forward (entries reversed: use before definition), F-regress, strings that read n / y.",
-    "C05": " Named choice defined in two places since added.",
-    "C07": " Each configuration is entered from another evaluated one; the generator that runs first rotates.",
-    "C08": " Old programs whose stored default looks like an option name / a bool since added; open finding C08-resolution-order (matcher: resolution-order-reverse-property) with an F-regress program.",
-    "C09": " Literals that are no numbers of the target's type, long acyclic chains (open finding C09-deep-chain-recursion) since added; KDeps corrected for choice definitions without prompt.",
-    "C12": " Long-lived Kconfig object in every second history; hex option spelled with / without 0x (SyncDeps compares hex as the header spells it).",
-    "C14": " Requests with load and save together; every session file compared with the specification's (R-SavedWhere).",
-    "C17": " Options with a warning, confirmed through force_change_node, since added.",
-    "C10": " Every configuration is entered from another, fully evaluated one; write_min_config runs before any read in 1 of 3 cases.",
-    "C03": " Plus seeded walks of 4-8 actions, replacing loads of files the tool itself wrote (default-marked entries) and the observation that no such history rewrites an option's defaults (R-NoInjection).",
-    "C04": " Macro variants since added: NAME = / := literal in front of entries (redefined later), used bare, quoted, embedded and doubled in default values and range bounds; also split-and, min-parens, two-prompts, odd-text variants, F-lex programs and hand-written fixtures; five open parser-2 findings (white-space splitting of option lines).",
+    "C16": " Round 4: sessions containing a save are replayed once more with nothing read between the actions (TLC judges the final observation by the same clauses).",
+    "C06": " Round 4: the numeric F-nest programs (incl. a default outside the range) under menus / ifs that are off.",
+    "C02": " Every configuration is entered from another, fully evaluated configuration of the same instance and the writers run before any read in 2 of 3 cases (stale internal flags); the same fixpoint is checked through kconfgen's command line (spec/KStore.tla GenRun, spec/MC_Gen.tla: --defaults files merged in order, sdkconfig merged on top, both policies, second run rewrites nothing). Round 4: two choices with a forward dependency, member-less additional definitions, a user value n on a member itself (Marked follows the choice's pick only).",
+    "C01": " Families since added: F-multidef, F-forward (entries reversed: use before definition), F-regress, strings that read n / y. Round 4: implicit-submenu programs (an option directly followed by an if / menu / option depending on it, under `visible if` and dependent menus).",
+    "C05": " Named choice defined in two places since added. Round 4: member-less second definition carrying a default; two choices; a default naming an option outside the choice (selects nothing).",
+    "C07": " Each configuration is entered from another evaluated one; the generator that runs first rotates. Round 4: every other configuration syncs into the dependency directory left by the previous build of a larger tree and no output may name an undefined option (P-SamePresence); options without any value, with aliases.",
+    "C08": " Old programs whose stored default looks like an option name / a bool since added; open finding C08-resolution-order (matcher: resolution-order-reverse-property) with an F-regress program. Round 4: two defaults changed at once (the deciding option / choice defined after the dependant), an option defined in two places under different dependencies (kept default holds under any definition's dependencies), F-multidef bases.",
+    "C09": " Literals that are no numbers of the target's type, long acyclic chains (open finding C09-deep-chain-recursion) since added; KDeps corrected for choice definitions without prompt. Round 4: two of the four constructions of every text run under the loader's optional checks (KCONFIG_WARN_UNDEF / KCONFIG_STRICT) with an undefined reference; relations between very large ints / hex numbers and floats.",
+    "C12": " Long-lived Kconfig object in every second history; hex option spelled with / without 0x (SyncDeps compares hex as the header spells it). Round 4: aliases of an option that stops being written; an int spelled with / without leading zeros (SyncDeps compares ints as the header spells them).",
+    "C14": " Requests with load and save together; every session file compared with the specification's (R-SavedWhere). Round 4: the quick tier runs every F-edge program with every pair of requests.",
+    "C17": " Options with a warning, confirmed through force_change_node, since added. Round 4: rows that are no options (comment, menu holding only a comment, empty menu) conditioned on an option nothing depends on.",
+    "C10": " Every configuration is entered from another, fully evaluated one; write_min_config runs before any read in 1 of 3 cases. Round 4: string values spelling the unset marker / holding a form feed.",
+    "C03": " Plus seeded walks of 4-8 actions, replacing loads of files the tool itself wrote (default-marked entries) and the observation that no such history rewrites an option's defaults (R-NoInjection). Round 4: the quick tier keeps every twice-defined option whose prompt is on the first definition only.",
+    "C04": " Macro variants since added: NAME = / := literal in front of entries (redefined later), used bare, quoted, embedded and doubled in default values and range bounds; also split-and, min-parens, two-prompts, odd-text variants, F-lex programs and hand-written fixtures; five open parser-2 findings (white-space splitting of option lines). Round 4: inline-comments style; literals with an escaped quote before '#', ending in an escaped backslash, a float with decimals and exponent, an option name starting with a digit.",
     "C11": " The program also comes in a variant whose conditions still mention the deprecated names without defining them; block entries with quotes / backslashes / empty right-hand side; invalid bool text through aliases.",
-    "C13": " copyfile(follow_symlinks=False) is honoured by the interposer and modelled in Trace_Save as a second name of the destination file; docs and report formats; regeneration by sub-processes with other hash seeds.",
-    "C15": " Rows since added: file names the OS refuses (NUL, lone surrogate, empty), set / reset of a name that is only mentioned in expressions, lines the decoder refuses (huge integer, deep nesting), markup text into numeric options; a subset also through the real process with default verbosity.",
-    "C18": " Include lines (source / rsource / osource / orsource) after entries are now part of the generated files; the included file defines an option.",
-    "C19": " Skeleton since extended to 11 directories (a second directory inside the nested project, a directory named like a rename file); rename files named on the command line / below --includes (DeprScope Explicit / Includes).",
-    "C20": " Programs now contain options defined twice, choices (named, unnamed, gated), nested menus emptied by the target, promptless options reached through imply / set / set default, a float option and literal.",
+    "C13": " copyfile(follow_symlinks=False) is honoured by the interposer and modelled in Trace_Save as a second name of the destination file; docs and report formats; regeneration by sub-processes with other hash seeds. Round 4: previous contents without a final newline (hand-edited destination).",
+    "C15": " Rows since added: file names the OS refuses (NUL, lone surrogate, empty), set / reset of a name that is only mentioned in expressions, lines the decoder refuses (huge integer, deep nesting), markup text into numeric options; a subset also through the real process with default verbosity. Round 4: every row also against a server started with --version 1 / 2; a hex value of 4000 digits; reset all; the same sessions on a tree with 1200 more options; where `save: null` goes after a refused request / failed load / failed save (R-SavedWhere on the session's first file).",
+    "C18": " Include lines (source / rsource / osource / orsource) after entries are now part of the generated files; the included file defines an option. Round 4: names of 43 / 44 / 49 / 50 / 51 characters in rename files and Kconfig files.",
+    "C19": " Skeleton since extended to 11 directories (a second directory inside the nested project, a directory named like a rename file); rename files named on the command line / below --includes (DeprScope Explicit / Includes). Round 4: two rename files named in one invocation, standing after / before / between the files to check.",
+    "C20": " Programs now contain options defined twice, choices (named, unnamed, gated), nested menus emptied by the target, promptless options reached through imply / set / set default, a float option and literal. Round 4: a choice member that `depends on` another target; documented options whose default value is a choice member.",
 }
 
 REASON_PENDING = "check not built yet in this session (planned in DESIGN.md section 3); not claimed until its TLA+ model and conformance harness exist"
